@@ -87,10 +87,11 @@ def generate(seed: int, tier: str) -> dict:
     }
 
 
-def _calc_key(world, key):
+def _calc_key(world, key, eternal_period=None):
     var, p = key
     if p == ETERNITY:
-        return ["calculate", var, "2018-01"]
+        # an eternal value is recomputed for the period it was computed for
+        return ["calculate", var, (eternal_period or {}).get(var, "2018-01")]
     return ["calculate", var, p]
 
 
@@ -116,14 +117,14 @@ def substituted_of_last_op(world):
     return out
 
 
-def verify(world, scn, R, x, inputs0):
+def verify(world, scn, R, x, inputs0, eternal_period=None):
     """Recompute x on a fresh simulation given the same inputs and the other
     readable values (inputs are set as inputs: variables that are not cached
     still accept them)."""
     fresh = build_sim(world, scn["situation"], scn["knobs"], scn["inputs"])
     preload(fresh, {k: v for k, v in R.items() if k != x and k not in inputs0})
     CTX.sim = None
-    out = apply_op(fresh, world, _calc_key(world, x))
+    out = apply_op(fresh, world, _calc_key(world, x, eternal_period))
     reads = reads_of_last_op(world)
     return out, reads
 
@@ -137,6 +138,7 @@ def run_order(scn, world, order, res: Result, H: History, fresh_cache: dict):
         spirals = watch_spirals(sim)
         inputs0 = set(readable(sim, env))
         verified: dict = {}  # x -> {"step", "reads", "defaults"}
+        eternal_period: dict = {}  # eternal variable -> period its stored value was computed for
         first_seen: dict = {}
         prev = dict.fromkeys(inputs0)
         formulas_ran = 0
@@ -146,6 +148,9 @@ def run_order(scn, world, order, res: Result, H: History, fresh_cache: dict):
             out = apply_op(sim, world, do)
             CTX.sim = None
             formulas_ran += len(CTX.frames)
+            for f in CTX.frames:
+                if f.done and world.var_specs[f.var]["unit"] == "eternity":
+                    eternal_period[f.var] = str(f.period)
             R = readable(sim, env)
             # tainted by this request: reads answered by a substituted default, and
             # values computed from them that the purge discarded
@@ -190,7 +195,7 @@ def run_order(scn, world, order, res: Result, H: History, fresh_cache: dict):
                 for k in todo_new[:12]:
                     if isinstance(R[k], BaseException):
                         continue
-                    vout, reads = verify(world, scn, R, k, inputs0)
+                    vout, reads = verify(world, scn, R, k, inputs0, eternal_period)
                     res.count("clause:C02.retained.new")
                     ok = vout[0] == "ok" and same(vout[1], R[k])
                     if not ok:
@@ -207,7 +212,7 @@ def run_order(scn, world, order, res: Result, H: History, fresh_cache: dict):
                 for k in todo_old[:12]:
                     if isinstance(R[k], BaseException):
                         continue
-                    vout, reads = verify(world, scn, R, k, inputs0)
+                    vout, reads = verify(world, scn, R, k, inputs0, eternal_period)
                     res.count("clause:C02.retained.old")
                     ok = vout[0] == "ok" and same(vout[1], R[k])
                     rec = verified[k]
